@@ -511,12 +511,35 @@ func checkOrder(c OrderCase) fw.Outcome {
 		return out
 	}
 	if !ok {
-		all := make([]int, len(infos))
-		for i := range all {
-			all[i] = i
+		// the offending statement: the first one that belongs to an earlier section than a statement in front of it, or the
+		// first revision that is not older than the one in front of it
+		off, maxSec, prevDate := -1, -1, ""
+		for k, st := range root.Kids {
+			sec := section(st.Kw)
+			if sec < maxSec {
+				off = k
+				break
+			}
+			maxSec = sec
+			if st.Kw == "revision" {
+				if prevDate != "" && st.Arg >= prevDate {
+					off = k
+					break
+				}
+				prevDate = st.Arg
+			}
 		}
-		if !locOK(locs, infos, all...) {
-			out.Violation = fmt.Sprintf("order rejection does not give the location of a statement: %q\ntext: %s", etxt, text)
+		idx, seen := -1, -1
+		for i, in := range infos {
+			if in.Depth == 1 {
+				seen++
+				if seen == off {
+					idx = i
+				}
+			}
+		}
+		if !locOK(locs, infos, idx) {
+			out.Violation = fmt.Sprintf("order rejection does not give the location of the offending statement (statement %d of the module, '%s %s'): %q\ntext: %s", off+1, root.Kids[max(off, 0)].Kw, root.Kids[max(off, 0)].Arg, etxt, text)
 		}
 	}
 	return out
@@ -525,7 +548,7 @@ func checkOrder(c OrderCase) fw.Outcome {
 var orderProp = fw.Register(&fw.Prop[OrderCase]{
 	ID: "C09", Name: "order",
 	Rule: "all 5! orders of the five module sections x {module, submodule} x all subsets of present optional sections x {1,2} statements per section, and revision date sequences " +
-		"(descending, equal, ascending); oracle: accepted iff the present sections are in header, linkage, meta, revision, body order and revision dates strictly descend",
+		"(descending, equal, ascending); oracle: accepted iff the present sections are in header, linkage, meta, revision, body order and revision dates strictly descend; a rejection gives the line and column of the first statement that is out of place",
 	Gen: func(t *rapid.T) OrderCase { return OrderCase{} }, Check: checkOrder,
 })
 
